@@ -15,6 +15,7 @@ import json
 import os
 import re
 import shlex
+import shutil
 import subprocess
 import sys
 import time
@@ -606,8 +607,12 @@ def run_chunk(binp, cells, opts, outp, deadline_s):
         cmd.append('--rand-choice')
     if opts.get('max_exec'):
         cmd += ['--max-exec', str(opts['max_exec'])]
+    if opts.get('no_cache'):
+        cmd.append('--no-cache')
     env = dict(os.environ)
     env['ASAN_OPTIONS'] = ASAN_OPTIONS
+    if opts.get('force_bounds'):
+        env['VX_FORCE_BOUNDS'] = '1'
     r = subprocess.run(cmd, stdout=subprocess.PIPE, stderr=subprocess.STDOUT, text=True, env=env)
     res = None
     if os.path.exists(outp):
@@ -663,6 +668,106 @@ def run_mc(prop, run, tier, seed, t_end, work):
     return results, errors
 
 
+def crosscheck(harnesses, P, ncells, variant='mc-asan', deadline=600.0, tier='quick'):
+    """State-cache cross-check: the same cells explored with the cache and without it must reach the same
+    set of final partial-order fingerprints and the same set of outcomes."""
+    names = harnesses or sorted(h for h, d in HARNESSES.items() if d['kind'] == 'mc' and h != 'std_prims')
+    build([(h, variant) for h in names])
+    work = os.path.join(BUILD, 'work', 'crosscheck')
+    shutil.rmtree(work, ignore_errors=True)
+    os.makedirs(work)
+    env = dict(os.environ)
+    env['ASAN_OPTIONS'] = ASAN_OPTIONS
+    report = []
+    bad = 0
+    for h in names:
+        binp = os.path.join(BUILD, variant, 'bin', h)
+        cells = [c for c in subprocess.run([binp, '--list-cells', '--tier', tier], stdout=subprocess.PIPE, text=True, env=env,
+                                           check=True).stdout.split('\n') if c]
+        stride = max(1, len(cells) // ncells)
+        pick = cells[stride // 2::stride][:ncells]
+        t_end = time.time() + deadline
+        res = {}
+        with concurrent.futures.ThreadPoolExecutor(max_workers=NPROC) as ex:
+            futs = {}
+            for mode in ('cache', 'nocache'):
+                for i, c in enumerate(pick):
+                    opts = dict(tier=tier, P=P, S=1, T=1, force_bounds=True, no_cache=(mode == 'nocache'))
+                    outp = os.path.join(work, '%s-%s-%d.json' % (h, mode, i))
+                    futs[(mode, i)] = ex.submit(lambda c=c, opts=opts, outp=outp: run_chunk(binp, [c], opts, outp, t_end - time.time()))
+            for k, f in futs.items():
+                rc, out, r = f.result()
+                res[k] = r['cells'][0] if r and r.get('cells') else None
+        for i, c in enumerate(pick):
+            a, b = res[('cache', i)], res[('nocache', i)]
+            row = dict(harness=h, cell=c, P=P)
+            if not a or not b or not a.get('exhaustive') or not b.get('exhaustive'):
+                row['status'] = 'incomplete'
+            else:
+                keys = ('distinct_finals', 'finals_xor', 'distinct_outcomes', 'outcomes_xor')
+                same = all(a[k] == b[k] for k in keys) and a['finals_invalid'] == 0 and b['finals_invalid'] == 0
+                nv = lambda x: sorted((v['oracle']) for v in x['violations'])
+                same = same and nv(a) == nv(b)
+                row.update(status='same' if same else 'DIFFERENT', executions_cache=a['executions'], executions_nocache=b['executions'],
+                           finals=a['distinct_finals'], finals_nocache=b['distinct_finals'], outcomes=a['distinct_outcomes'],
+                           outcomes_nocache=b['distinct_outcomes'])
+                if not same:
+                    bad += 1
+            report.append(row)
+        rows = [r for r in report if r['harness'] == h]
+        print('%-18s cells=%d same=%d different=%d incomplete=%d executions cache=%d nocache=%d' % (
+            h, len(rows), sum(r['status'] == 'same' for r in rows), sum(r['status'] == 'DIFFERENT' for r in rows),
+            sum(r['status'] == 'incomplete' for r in rows), sum(r.get('executions_cache', 0) for r in rows),
+            sum(r.get('executions_nocache', 0) for r in rows)))
+        sys.stdout.flush()
+    json.dump(dict(P=P, variant=variant, rows=report), open(os.path.join(VERIF, 'cache_crosscheck.json'), 'w'), indent=1)
+    return 2 if bad else 0
+
+
+def mini_crosscheck(run, tier, work, ncells, deadline_s=120.0):
+    """Part of every explorer check: a few cells of the harness explored at P=1 with and without the state
+    cache must reach the same final fingerprints, outcomes and violations."""
+    vname = run['variant']
+    binp = os.path.join(BUILD, vname, 'bin', run['harness'])
+    env = dict(os.environ)
+    env['ASAN_OPTIONS'] = ASAN_OPTIONS
+    cells = [c for c in subprocess.run([binp, '--list-cells', '--tier', tier], stdout=subprocess.PIPE, text=True, env=env,
+                                       check=True).stdout.split('\n') if c]
+    if run[tier].get('cells'):
+        rx = re.compile(run[tier]['cells'])
+        cells = [c for c in cells if rx.search(c)]
+    stride = max(1, len(cells) // ncells)
+    pick = cells[stride // 3::stride][:ncells]
+    t_end = time.time() + deadline_s
+    out = dict(harness=run['harness'], variant=vname, bound='P=1', cells=len(pick), same=0, different=[], incomplete=0,
+               executions_cache=0, executions_nocache=0)
+    with concurrent.futures.ThreadPoolExecutor(max_workers=NPROC) as ex:
+        futs = {}
+        for mode in ('cache', 'nocache'):
+            for i, c in enumerate(pick):
+                opts = dict(tier=tier, P=1, S=1, T=1, force_bounds=True, no_cache=(mode == 'nocache'))
+                outp = os.path.join(work, 'xc-%s-%s-%s-%d.json' % (run['harness'], vname, mode, i))
+                futs[(mode, i)] = ex.submit(lambda c=c, opts=opts, outp=outp: run_chunk(binp, [c], opts, outp, t_end - time.time()))
+        res = {}
+        for k, f in futs.items():
+            rc, txt, r = f.result()
+            res[k] = r['cells'][0] if r and r.get('cells') else None
+    for i, c in enumerate(pick):
+        a, b = res[('cache', i)], res[('nocache', i)]
+        if not a or not b or not a.get('exhaustive') or not b.get('exhaustive'):
+            out['incomplete'] += 1
+            continue
+        out['executions_cache'] += a['executions']
+        out['executions_nocache'] += b['executions']
+        keys = ('distinct_finals', 'finals_xor', 'distinct_outcomes', 'outcomes_xor', 'finals_invalid')
+        nv = lambda x: sorted(v['oracle'] for v in x['violations'])
+        if all(a[k] == b[k] for k in keys) and nv(a) == nv(b):
+            out['same'] += 1
+        else:
+            out['different'].append(c)
+    return out
+
+
 def check(prop, tier):
     t0 = time.time()
     spec = CHECKS[prop]
@@ -696,6 +801,19 @@ def check(prop, tier):
             c['_oracles'] = run.get('oracles')
         all_cells += res
         errors += errs
+    # ---- state-cache cross-check on a few cells of every explorer harness this check uses ----
+    xcs = []
+    mc_runs = [r for r in spec['runs'] if r['kind'] == 'mc' and not r[tier].get('all_points') and r['variant'].startswith('mc-asan')]
+    seen_h = set()
+    for run in mc_runs:
+        if (run['harness'], run['variant']) in seen_h:
+            continue
+        seen_h.add((run['harness'], run['variant']))
+        xc = mini_crosscheck(run, tier, work, 4 if len(mc_runs) <= 3 else 1)
+        xcs.append(xc)
+        for c in xc['different']:
+            errors.append('state cache cross-check failed: harness %s cell %s reaches different final states with and '
+                          'without the cache at P=1' % (run['harness'], c))
     # ---- verdict ----
     os.makedirs(os.path.join(VERIF, 'replays'), exist_ok=True)
     os.makedirs(os.path.join(VERIF, 'evidence'), exist_ok=True)
@@ -769,6 +887,7 @@ def check(prop, tier):
             failure_replays=sum(c.get('replay_checks', 0) for c in all_cells),
             hb_accesses=sum(c.get('hb_accesses', 0) for c in all_cells),
             known_findings=known_lines, machinery_errors=errors[:10], build_s=round(t_build, 1),
+            cache_crosscheck=xcs,
             cells=cell_summ if len(cell_summ) <= 400 else cell_summ[:400],
         ),
         assumptions=spec.get('assumptions', []),
@@ -946,6 +1065,11 @@ def main():
     r.add_argument('file')
     sub.add_parser('setup')
     sub.add_parser('manifest')
+    x = sub.add_parser('crosscheck')
+    x.add_argument('harness', nargs='*')
+    x.add_argument('--P', type=int, default=2)
+    x.add_argument('--cells', type=int, default=16)
+    x.add_argument('--deadline', type=float, default=600.0)
     u = sub.add_parser('upstream-tests')
     u.add_argument('--filter', default=None)
     u.add_argument('--variant', default=None)
@@ -964,6 +1088,8 @@ def main():
         sys.exit(replay(a.file))
     elif a.cmd == 'manifest':
         write_manifest()
+    elif a.cmd == 'crosscheck':
+        sys.exit(crosscheck(a.harness, a.P, a.cells, deadline=a.deadline))
     elif a.cmd == 'upstream-tests':
         sys.exit(upstream_tests((a.variant,) if a.variant else ('up-fiber', 'up-off'), a.filter))
     elif a.cmd == 'setup':
